@@ -59,7 +59,7 @@ def harness(args, timeout=3600, env=None):
 
 
 SWITCHES_EXEC = ['SwResetCanCatchField', 'SwResetExitFieldP', 'SwResetExitFieldV', 'SwResetExitElemP',
-                 'SwResetExitElemV', 'SwValStructArgPtr', 'SwNestedSourceTag', 'SwRunAllTests']
+                 'SwResetExitElemV', 'SwValStructArgPtr', 'SwNestedSourceTag', 'SwEmptyRecordSourceTag', 'SwRunAllTests']
 
 
 def exec_consts(off=(), soft='run', extra=None):
